@@ -339,7 +339,7 @@ class PrimaiteGame:
 
                         # fixing duration for the service
                         if "fixing_duration" in service_cfg.get("options", {}):
-                            new_service.config.fixing_duration = service_cfg["options"]["fixing_duration"]
+                            new_service.config.fixing_duration = int(service_cfg["options"]["fixing_duration"])
 
                         _set_software_listen_on_ports(new_service, service_cfg)
                         # start the service
